@@ -2332,8 +2332,8 @@ class AggregateBase(UnitsManaged, Saveable, OpenSystem):
             Dr_a = numpy.zeros(N1b, dtype=REAL)
             for ii in range(N1b):
                 for nn in range(N1b):
-                    Wd_a[ii] += (self.Wd[nn,nn]**2)*abs(SS[ii,nn])**4
-                    Dr_a[ii] += (self.Dr[nn,nn]**2)*abs(SS[ii,nn])**4
+                    Wd_a[ii] += (self.Wd[nn,nn]**2)*abs(SS[nn,ii])**4
+                    Dr_a[ii] += (self.Dr[nn,nn]**2)*abs(SS[nn,ii])**4
             Wd_a = numpy.sqrt(Wd_a)
             Dr_a = numpy.sqrt(Dr_a)
     
